@@ -128,6 +128,12 @@ func verifBackendToTunnel(raddr *net.UDPAddr, buf []byte, i int) bool {
 	}
 	n := verif.IterRet[int](evRecv, 0)
 	payload := verif.IterArg[[]byte](evPack, 0)
+	// every wait for a reply gets its own, fresh idle deadline (re-armed in the
+	// iteration, before the read): the socket of a user address is given up after
+	// 30 s of silence, not 30 s after its first datagram
+	if !verif.CalledInIter("SetReadDeadline") || !verif.CalledBefore("SetReadDeadline", evRecv) {
+		return false
+	}
 	return verif.CalledInIter(evPack) && len(payload) == n && (i < 0 || i >= n || payload[i] == buf[i]) &&
 		verif.IterArg[*net.UDPAddr](evPack, 2) == raddr && verif.IterArg[*net.UDPAddr](evPack, 1) == nil
 }
